@@ -25,15 +25,20 @@ RUN_TIMEOUT_S = 900
 
 def gen(src, tier):
     strategy = src.choice("strategy", ["filter", "fixedpoint", "fixedinterval"])
-    cfg = configs.gen_config(src, strategy=strategy, qmax=6, priors=("iwp", "iwp", "iwp", "ioup"),
-                             inits=("exact", "exact", "inexact", "diffuse", "partial"))
+    # swarm knob: one run in eight uses the largest shapes of the property's quantifier the solvers can produce
+    # (n = 9 coefficients, d = 3), where products of 27 pivots leave the double range although every factor is representable
+    big = src.flip("big", 0.125)
+    cfg = configs.gen_config(src, strategy=strategy, qmax=8 if big else 6, priors=("iwp",) if big else ("iwp", "iwp", "iwp", "ioup"),
+                             inits=("exact", "exact", "inexact", "diffuse", "partial"),
+                             **({"q": 8, "d": 3} if big else {}))
     script = scen.gen_history(src, nsteps=(2, 5), p_reject=0.3, rel_lo=src.choice("rel_lo", [0.3, 0.05]))
     sc = {"cfg": cfg, "script": script, "eps": 1e-8, "final": scen.gen_final(src),
           "placements": scen.gen_placements(src, len(script) - 1, n=(0, 3)),
           "routine": "fixed_grid" if (strategy == "fixedinterval" and src.flip("grid", 0.5)) else "forced",
           "extras": {"sample": src.flip("sample", 0.6), "loss": src.flip("loss", 0.6), "offgrid": src.flip("offgrid", 0.4),
                      "precon": src.flip("precon", 0.5)},
-          "key": src.randint("key", 0, 2**31 - 1)}
+          "key": src.randint("key", 0, 2**31 - 1),
+          "big": bool(big), "logpdf_scale": src.choice("logpdf_scale", [1e-12, 1e-6, 1.0, 1e6, 1e12])}
     return sc
 
 
@@ -74,11 +79,19 @@ def drive(sc, b):
         t = 0.5 * (ts[0] + ts[1])
         with flowseam.stepped(budget=20_000):
             b.solver.offgrid_marginals(jnp.asarray(t), solution=sol)
+    proto = b.prior.init.prototype_output_scale_calibrated()
     if sc["extras"]["precon"]:
-        proto = b.prior.init.prototype_output_scale_calibrated()
         for h in accs[:2]:
             tr = b.prior.transition(dt=jnp.asarray(h), output_scale=jnp.ones_like(proto))
             tr.preconditioner_apply()
+    # log-density of the (well-conditioned, preconditioned) process noise under extreme common scalings: the drawn one,
+    # and in the largest shapes (27 pivots, whose product leaves the double range) the whole range of the quantifier
+    scales = [1e-12, 1e-6, 1.0, 1e6, 1e12] if sc.get("big") else ([sc.get("logpdf_scale", 1.0)] if sc["extras"]["precon"] else [])
+    if scales:
+        tr = b.prior.transition(dt=jnp.asarray(accs[0]), output_scale=jnp.ones_like(proto))
+        for s in scales:
+            noise = tr.noise.rescale_cholesky(jnp.asarray(s) * jnp.ones_like(proto))
+            noise.logpdf_flat(noise.mean_flat)
     # dense conversion and standard deviations of the outputs
     one = tu.tree_map(lambda s: s[-1], sol.u)
     one.to_multivariate_normal()
@@ -98,12 +111,10 @@ def drive(sc, b):
             from probdiffeq.backend import linalg
 
             ci.marginalise(rv)
-            # reverting needs a non-singular marginal of y for the exact triangular solver (and the pseudo-inverse
-            # solver truncates legitimately small directions of such badly scaled probes): probe only when well posed
-            y = ci.marginalise(rv)
-            sd = onp.sqrt(onp.abs(onp.diag(embed.normal_np(y)[1])))
-            if onp.all(sd > 1e-12 * (onp.max(sd) + 1e-300)) and onp.all(sd > 0):
-                ci.revert(rv, solve_triu=linalg.solve_triu)
+            # the exact triangular solver; a (numerically) singular marginal of y yields non-finite gains, in which
+            # case the monitor decides the marginal of y only (its gain checks are gated by conditioning)
+            ci.marginalise(rv)
+            ci.revert(rv, solve_triu=linalg.solve_triu)
             ci.merge(cj)
             ci.preconditioner_apply()
             ci.apply_flat(rv.mean_flat)
